@@ -221,6 +221,13 @@ rec_begin(const char *type)
         rlen = 0;
         rfirst = 0;
         rput("{\"type\":\"%s\",\"property\":\"%s\"", type, g_property);
+        if (!strcmp(type, "viol")) { /* which driver / library configuration produced it (used by vcheck --replay) */
+                const char *d = getenv("VERIF_DRIVER"), *c = getenv("VERIF_CFG");
+                if (d)
+                        rput(",\"_driver\":\"%s\"", d);
+                if (c)
+                        rput(",\"_cfg\":\"%s\"", c);
+        }
 }
 void
 rec_s(const char *k, const char *v)
